@@ -8,7 +8,8 @@
     dialer steps over any number of threads and addresses and every choice of
     dial outcomes.  Non-vacuity: ConnProofs.ex_shared, ex_closed, ex_fresh,
     ex_failed, ex_two_dials, ex_failing_window. *)
-From Coq Require Import List ZArith Arith.
+From Coq Require Import List ZArith NArith Arith.
+Import ListNotations.
 From Gnmi Require Import Conn.ConnLts Conn.ConnCheck Conn.ConnProofs.
 
 (** one_dial_in_flight *)
@@ -132,3 +133,36 @@ Theorem C16_check_model_states_reachable :
   forall es, Forall reachable (mstates init es).
 Proof. exact check_model_states_reachable. Qed.
 Print Assumptions C16_check_model_states_reachable.
+
+(** after every applied event the model is at rest: no dialer can start, no
+    failed dial can signal ready, no waiter can return without a further event
+    (this is the state the harness waits for before it records observations) *)
+Theorem C16_mrun_quiescent :
+  forall s e, reachable s -> o_ign (snd (mrun s e)) = false -> quiescent (fst (mrun s e)).
+Proof. exact mrun_quiescent. Qed.
+Print Assumptions C16_mrun_quiescent.
+
+(** K_P: a case without tags 2..7 is one whose every observation equals the
+    specification's prediction ... *)
+Theorem C16_check_clean_kaccepts :
+  forall c, (forall m t, In (m, t) (check_case c) -> t = 1%N) -> kaccepts c = true.
+Proof. exact check_clean_kaccepts. Qed.
+Print Assumptions C16_check_clean_kaccepts.
+
+(** ... the specification machine keeps its invariant (closed handles have no
+    unreleased holder, live/dialing/failing addresses point to the right dial
+    record) under every event ... *)
+Theorem C16_spec_invariant : forall ks e, kinv ks -> kinv (fst (kstep ks e)).
+Proof. exact kinv_kstep. Qed.
+Print Assumptions C16_spec_invariant.
+
+(** ... and therefore the observations of an accepted case satisfy
+    no-use-after-close by themselves: when a handle is observed closed, every
+    thread observed to have received it has an applied release event. *)
+Theorem C16_K_sound_no_use_after_close :
+  forall c, kaccepts c = true ->
+  forall pre e o post, c = pre ++ (e, o) :: post ->
+  forall h, In h (o_closed (canon o)) ->
+  forall i, returned_in (pre ++ [(e, o)]) i (OConn h) -> released_in (pre ++ [(e, o)]) i.
+Proof. exact K_sound_no_use_after_close. Qed.
+Print Assumptions C16_K_sound_no_use_after_close.
